@@ -286,6 +286,25 @@ func init() {
 	}
 	// vall <rules> <hex schema SDL> <hex document>: `<validate obs> # <links obs> # <events obs> # <valreq>`
 	// in one call (fresh parses, so the parts are independent)
+	// vshared <rules> <hex schema SDL> <hex document>: validation against the schema OBJECT this
+	// process keeps for that SDL (as a server does), errors and the links left on the document
+	Ops["vshared"] = func(a []string) string {
+		rs, bad := resolveRules(a[0])
+		if bad != "" {
+			return bad
+		}
+		sb, _ := UnhexW(a[1])
+		c := loadCached(string(sb))
+		if c.err != nil {
+			return "LOADERR"
+		}
+		db, _ := UnhexW(a[2])
+		doc, err := parser.ParseQuery(&ast.Source{Input: string(db)})
+		if err != nil {
+			return "PARSEERR"
+		}
+		return RunValidate(c.s, doc, rs) + " # " + LinksObs(doc)
+	}
 	Ops["vall"] = func(a []string) string {
 		rs, bad := resolveRules(a[0])
 		if bad != "" {
